@@ -31,14 +31,16 @@ EPS = '1/1000000000'          # tolerance of DESIGN section 8 for float64 paths
 EPS_F = 1e-9
 MARGIN = 1e-7                 # a discrete decision is compared exactly only if its margin exceeds this
 JOB_TIMEOUT = 10.0            # seconds without an answer from a worker = the call does not return
+RETRY_TIMEOUT = 45.0         # a call that gave no answer is run once more, alone, with this limit before it counts as a hang
 MAX_TIMEOUTS = 6              # after that many calls that do not return, the remaining calls of the same entry point are skipped
 N_WORKERS = 8
 
-RULE = ('exhaustive directed graphs n<=3 (thorough: all undirected n=4 too; quick: sampled) with unequal weights x all seedings over '
-        '{-1,a,b[,c]} with at least two classes x weighted/unweighted; structured random graphs n<=12 (undirected, '
-        'directed, bipartite, disconnected, unequal dyadic weights) x seeds as array/list/dict x node_order x n_iter x '
-        'centering x n_neighbors x solver; direct calls of vote_update with labels >= n and nnz < n; integer embeddings with '
-        'ties for the nearest-neighbour cores; random label vectors for the metrics. A case is non-trivial when the '
+RULE = ('all directed graphs n<=3 and undirected graphs n=4 (quick: 12 sampled n=4 graphs and 10 sampled seedings per graph; thorough: '
+        'all graphs, all seedings) with unequal weights x seedings over {-1,a,b[,c]} with at least two classes x weighted/unweighted, '
+        'Propagation and DiffusionClassifier on each; structured random graphs n<=12 (undirected, directed, bipartite, disconnected, '
+        'unequal dyadic weights, stored zeros, duplicate entries) x seeds as array/list/dict x node_order x n_iter x centering x scale x '
+        'force_bipartite x n_neighbors x threshold x solver; direct calls of vote_update with labels >= n and nnz < n; integer '
+        'embeddings with ties for the nearest-neighbour cores; random label vectors for the metrics. A case is non-trivial when the '
         'graph has an edge, the seeds carry at least two classes and at least one node is not a seed (metrics: both '
         'vectors have a non-negative pair); distinct = distinct (entry point, input, options).')
 ASSUMPTIONS = [
@@ -50,7 +52,8 @@ ASSUMPTIONS = [
     'PageRank scores of PageRankClassifier are recomputed by the harness with the same estimator (C04 owns their values)',
     'the soft-max of DiffusionClassifier (np.exp) is outside the model: labels are checked against the exact centred '
     'temperatures, the probability rows through the row specification',
-    'float32 sums of the vote kernel are exact on the generated weights (integers and dyadic fractions)',
+    'float32 sums of the vote kernel are exact on the generated weights (integers and dyadic fractions); one job per run uses '
+    'weights 2^24 and 2^24+1, which float32 cannot tell apart (known finding F-C13-float32)',
 ]
 
 
@@ -216,7 +219,7 @@ def exec_job(job):
                 'stable': bool(np.array_equal(after, lab)), 'bipartite': bip}
     if kind == 'diff':
         from sknetwork.classification import DiffusionClassifier
-        algo = DiffusionClassifier(n_iter=job['n_iter'], centering=job['centering'])
+        algo = DiffusionClassifier(n_iter=job['n_iter'], centering=job['centering'], scale=job.get('scale', 5))
         algo.fit(gmat(job['graph']), force_bipartite=bool(job.get('force_bipartite')), **_seed_kwargs(job))
         adjacency, values, bip = _routed(job)
         labels, probs = _both(algo, adjacency.shape[0])
@@ -327,7 +330,7 @@ def worker_main(overlay_root, jobs_path):
 # ------------------------------------------------------------------------------------------------
 # parent side: run jobs in workers, survive crashes and hangs
 # ------------------------------------------------------------------------------------------------
-def _run_shard(overlay_root, todo, results, tag, budget):
+def _run_shard(overlay_root, todo, results, tag, budget, timeout=None):
     """todo: list of (i, job). Fills results[i]. Restarts the worker after a crash / time-out."""
     d = os.path.join(VERIF, '.cache', 'c13')
     os.makedirs(d, exist_ok=True)
@@ -363,7 +366,7 @@ def _run_shard(overlay_root, todo, results, tag, budget):
         started = False
         try:
             while True:
-                r, _, _ = select.select([fd], [], [], JOB_TIMEOUT if started else 120.0)
+                r, _, _ = select.select([fd], [], [], (timeout or JOB_TIMEOUT) if started else 120.0)
                 if not r:
                     failed = 'timeout'
                     break
@@ -457,6 +460,11 @@ def _has_unlabelled(job):
     return True
 
 
+def _float32_exact(data):
+    """Are the weights (and any sum of them) exact in the float32 arithmetic of the vote kernel?"""
+    return all(float(np.float32(w)) == float(w) for w in data) and sum(abs(float(w)) for w in data) < 2 ** 24
+
+
 def job_sig(job):
     kind = job['kind']
     entry = {'vote': 'vote_update', 'prop': 'Propagation', 'diff': 'DiffusionClassifier', 'knn': 'NNClassifier',
@@ -464,7 +472,8 @@ def job_sig(job):
              'link_core': 'NNLinker._fit_core', 'metric': 'metrics'}[kind]
     sig = {'entry': entry}
     if kind == 'prop':
-        sig.update(order=job['order'], weighted=job['weighted'], mode='seeds' if _n_classes(job) >= 2 else 'no-seeds')
+        sig.update(order=job['order'], weighted=job['weighted'], mode='seeds' if _n_classes(job) >= 2 else 'no-seeds',
+                   float32_exact=_float32_exact(job['graph']['data']))
     elif kind == 'diff':
         sig.update(centering=job['centering'])
     elif kind == 'rank':
@@ -506,7 +515,8 @@ def cases_of(job, res):
                                                      enc_bool(res['stable']))
         out.append(Case(key0, sig, run, impl, spec, nontriv, job, canon='prop'))
         if res['status'] == 'ok':
-            out.append(Case(key0 + ('rows',), sig, None, impl, 'c13.spec_rows %s %s' % (EPS, res['probs']), False, job))
+            out.append(Case(key0 + ('rows',), sig, None, impl, 'c13.spec_prop_rows %s %s %s %s %s' % (
+                gt, st, EPS, enc_list(res['labels']), res['probs']), False, job))
         return out
     if kind == 'diff':
         gt = g_token(job['graph'])
@@ -541,7 +551,8 @@ def cases_of(job, res):
         if res['status'] == 'ok':
             run = 'c13.rank %s %s' % (enc_list(res['values']), res['scores'])
             impl = 'ok %s %s' % (enc_list(res['labels']), res['probs'])
-            spec = 'c13.spec_rank %s %s %s %s' % (enc_list(res['values']), EPS, enc_list(res['labels']), res['probs'])
+            spec = 'c13.spec_rank %s %s %s %s %s' % (enc_list(res['values']), EPS, enc_list(res['labels']), res['probs'],
+                                                    res['scores'])
             out.append(Case(key0, sig, run, impl, spec, _n_classes(job) >= 2, job, canon='rank'))
         return out
     if kind in ('link', 'link_core'):
@@ -580,6 +591,12 @@ def cases_of(job, res):
         else:
             impl, spec = err, None
         nontriv = any(a >= 0 and b >= 0 for a, b in zip(job['t'], job['p']))
+        if name == 'weighted' and spec is not None:
+            # the spec line of the weighted average fails by design on the inputs of the known finding: the run line is
+            # a case of its own, so that a model/code disagreement on those inputs is still reported
+            out.append(Case(key0, dict(sig, check='run'), run, impl, None, nontriv, job, canon='metric'))
+            out.append(Case(key0 + ('spec',), dict(sig, check='spec'), None, impl, spec, False, job))
+            return out
         out.append(Case(key0, sig, run, impl, spec, nontriv, job, canon='metric'))
         return out
     raise KeyError(kind)
@@ -618,9 +635,11 @@ def _same(c, model, impl, spec_ok):
         # of the exact temperatures is clear; ties are judged by the spec line alone.
         if len(m) != 4 or len(i) != 3:
             return False
+        temps = dec_fmat(m[3])
+        if c.desc.get('centering') and not _softmax_close(temps, m[2], i[2], c.desc.get('scale', 5)):
+            return False
         if m[1] == i[1]:
             return True
-        temps = dec_fmat(m[3])
         if all(_top_gap(r) > MARGIN for r in temps if r):
             return False
         Ties.skipped += 1
@@ -634,7 +653,7 @@ def _same(c, model, impl, spec_ok):
         elif m[1] == i[1] and mat_close(m[2], i[2]):
             return True
         # a tie (or near tie) at a selection boundary / arg-max: any valid choice is accepted by the spec line
-        if _ambiguous(c):
+        if _ambiguous(c, m, i):
             Ties.skipped += 1
             return spec_ok
         return False
@@ -643,6 +662,41 @@ def _same(c, model, impl, spec_ok):
             return False
         return all(a == b or mat_close(a, b) for a, b in zip(m[1:], i[1:]))
     return False
+
+
+def _softmax_close(temps, reached_tok, probs_tok, scale):
+    """probs_ of DiffusionClassifier(centering=True) against the soft-max of the model's exact centred temperatures:
+    normalize(exp(scale * t)) on the reached nodes, null rows elsewhere."""
+    import math
+    reached = [] if reached_tok == '-' else [int(x) for x in reached_tok.split(',')]
+    probs = dec_fmat(probs_tok)
+    if len(probs) != len(temps):
+        return False
+    for i, (t, p) in enumerate(zip(temps, probs)):
+        if len(t) != len(p):
+            return False
+        if i < len(reached) and reached[i]:
+            e = [math.exp(float(scale) * float(x)) for x in t]
+            z = sum(e)
+            want = [x / z for x in e]
+        else:
+            want = [0.0] * len(t)
+        if any(abs(float(a) - b) > EPS_F for a, b in zip(p, want)):
+            return False
+    return True
+
+
+def _dec_rows(tok):
+    if tok == '-':
+        return []
+    rows = []
+    for r in tok.split(';'):
+        if r == '-':
+            rows.append([])
+        else:
+            xs = r.split(',')
+            rows.append([(int(xs[k]), Fraction(xs[k + 1])) for k in range(0, len(xs), 2)])
+    return rows
 
 
 def _rows_close(a, b):
@@ -668,8 +722,9 @@ def _rows_close(a, b):
     return True
 
 
-def _ambiguous(c):
-    """Is there a (near-)tie at a top-k boundary or an arg-max of this case? Computed from the run line itself."""
+def _ambiguous(c, m=None, i=None):
+    """Is there a (near-)tie at a top-k boundary or an arg-max of this case? Computed from the run line itself
+    (for NNLinker: only on the rows where model and implementation differ)."""
     toks = c.run.split(' ')
     if c.canon == 'rank':
         scores = dec_fmat(toks[2])
@@ -711,15 +766,28 @@ def _ambiguous(c):
         cols = list(range(nrow, n)) if nrow < n else list(range(n))
         if k >= len(cols):
             k = len(cols) - 1
-        for i in range(nrow):
-            if not mask[i]:
+        mrows, irows = _dec_rows(m[1]), _dec_rows(i[1])
+        if len(mrows) == 0 and nrow == 1:
+            mrows = [[]]
+        if len(irows) == 0 and nrow == 1:
+            irows = [[]]
+        if len(mrows) != nrow or len(irows) != nrow:
+            return False
+        for r in range(nrow):
+            if not mask[r]:
                 continue
-            sims = [dot(emb[j], emb[i]) for j in cols]
-            if _kth_gap([-s for s in sims], k) <= MARGIN:
-                return True
-            if any(abs(s - thr) <= MARGIN for s in sims):
-                return True
-        return False
+            same_cols = [x[0] for x in mrows[r]] == [x[0] for x in irows[r]]
+            if same_cols and all(abs(x[1] - y[1]) <= EPS_F for x, y in zip(mrows[r], irows[r])):
+                continue
+            # this row differs: is the difference explained by a (near-)tie at the k-th similarity or by a similarity of the
+            # top k that float arithmetic may put on the other side of the threshold?
+            sims = [dot(emb[j], emb[r]) for j in cols]
+            order = sorted(range(len(sims)), key=lambda q: -sims[q])
+            top = order[:k + 1]
+            near_thr = any(0 < abs(sims[q] - thr) <= MARGIN or (sims[q] == thr and sims[q] != 0) for q in top)
+            if _kth_gap([-x for x in sims], k) > MARGIN and not near_thr:
+                return False
+        return True
     return False
 
 
@@ -727,12 +795,44 @@ def evaluate(ctx, cases):
     _evaluate(ctx, cases, same=_same)
 
 
+def _retry_timeouts(ctx, jobs, results):
+    """A worker that is silent for JOB_TIMEOUT seconds may be a healthy job on a loaded machine: every such job is run
+    once more, alone, with RETRY_TIMEOUT; only a second silence makes it a call that does not return."""
+    import concurrent.futures
+    idx = [i for i, r in enumerate(results) if r is not None and r.get('status') == 'timeout']
+    if not idx:
+        return
+    root = ctx.overlay_root if hasattr(ctx, 'overlay_root') else ctx.ctx.overlay_root
+
+    def one(i):
+        out = [None]
+        _run_shard(root, [(0, jobs[i])], out, 'retry%d' % i, {'timeouts': 0, 'entries': set()}, timeout=RETRY_TIMEOUT)
+        return i, out[0]
+    with concurrent.futures.ThreadPoolExecutor(max_workers=min(16, len(idx))) as ex:
+        for i, res in ex.map(one, idx):
+            if res is not None and res.get('status') in ('ok', 'err'):
+                results[i] = res
+                ctx.count('slow-job')
+            elif res is not None and res.get('status') == 'crash':
+                results[i] = res
+    # the calls skipped after the budget of time-outs are run if the time-outs were not confirmed
+    if not any(r is not None and r.get('status') == 'timeout' for r in results):
+        sk = [i for i, r in enumerate(results) if r is not None and r.get('status') == 'skipped']
+        if sk:
+            again = run_jobs(ctx, [jobs[i] for i in sk])
+            for i, r in zip(sk, again):
+                results[i] = {'status': 'skipped'} if (r is None or r.get('status') == 'timeout') else r
+
+
 def run_and_evaluate(ctx, jobs):
     """Execute jobs on the implementation, turn them into cases, evaluate. Crashes / hangs are failing inputs."""
     results = run_jobs(ctx, jobs)
+    _retry_timeouts(ctx, jobs, results)
     cases = []
     for job, res in zip(jobs, results):
         ctx.count('kind:' + job['kind'])
+        if job['kind'] == 'prop' and res is not None and res.get('status') == 'ok':
+            ctx.count('prop:stable' if res.get('stable') else 'prop:not-stable')
         if res is None:
             from vlib.core import ToolFailure
             raise ToolFailure('C13: a job returned no result')
@@ -743,7 +843,8 @@ def run_and_evaluate(ctx, jobs):
             sig = dict(job_sig(job), failure=res['status'])
             ctx.case(('fail', json.dumps(job, sort_keys=True)), True)
             ctx.spec_fail(sig, job, {'what': 'the call %s on this input' % (
-                'did not return within %.0f s' % JOB_TIMEOUT if res['status'] == 'timeout' else
+                'did not return within %.0f s, nor within %.0f s when run alone' % (JOB_TIMEOUT, RETRY_TIMEOUT)
+                if res['status'] == 'timeout' else
                 'killed the interpreter (%s)' % res.get('detail'))})
             continue
         if res['status'] == 'err' and job['kind'] not in ('metric', 'prop', 'diff', 'vote'):
@@ -823,96 +924,187 @@ def _seed_kw_bip(rng, nr, nc, vr, vc):
     return {'labels': mk_seed(_form(rng), vr)}
 
 
-def gen_jobs(ctx, scale=1.0, small_only=False):
+def _is_symmetric(es):
+    st = set(es)
+    return all((j, i) in st for (i, j) in es)
+
+
+def _link_threshold(rng, a, core_emb=None):
+    """A threshold that separates the candidates of some row: half-way between two similarities that occur (or one that
+    occurs exactly), so that the threshold mask of NNLinker does some work."""
+    if core_emb is not None:
+        emb = np.array(core_emb, dtype=float)
+    else:
+        d = np.asarray(sparse.csr_matrix(a).toarray(), dtype=float)
+        if d.shape[0] != d.shape[1]:
+            d = np.block([[np.zeros((d.shape[0], d.shape[0])), d], [d.T, np.zeros((d.shape[1], d.shape[1]))]])
+        nrm = np.sqrt((d ** 2).sum(axis=1))
+        nrm[nrm == 0] = 1
+        emb = d / nrm[:, None]
+    sims = sorted(set(np.round(emb @ emb[rng.randrange(emb.shape[0])], 12).tolist()))
+    mode = rng.random()
+    if len(sims) >= 2 and mode < 0.6:
+        k = rng.randrange(len(sims) - 1)
+        return float(np.float32((sims[k] + sims[k + 1]) / 2))
+    if mode < 0.8:
+        return float(rng.choice(sims))
+    return float(rng.choice([0, 0.25, 0.5]))
+
+
+def _with_zeros_and_duplicates(rng, a):
+    """The same graph stored with an explicit zero entry and a duplicated entry (scipy keeps both)."""
+    a = sparse.csr_matrix(a).copy()
+    n = a.shape[0]
+    rows = []
+    for i in range(n):
+        lo, hi = a.indptr[i], a.indptr[i + 1]
+        ent = [(int(a.indices[q]), float(a.data[q])) for q in range(lo, hi)]
+        if ent and rng.random() < 0.5:
+            c, w = rng.choice(ent)
+            ent.remove((c, w))
+            ent += [(c, w / 2), (c, w / 2)]          # a duplicate: the two halves add up to the weight
+        free = [j for j in range(a.shape[1]) if j not in [c for c, _ in ent] and j != i]
+        if free and rng.random() < 0.5:
+            ent.append((rng.choice(free), 0.0))      # a stored zero
+        rows.append(ent)
+    indptr = [0]
+    indices, data = [], []
+    for ent in rows:
+        indices += [c for c, _ in ent]
+        data += [w for _, w in ent]
+        indptr.append(len(indices))
+    return {'shape': [n, a.shape[1]], 'indptr': indptr, 'indices': indices, 'data': data}
+
+
+def gen_jobs(ctx, scale=1.0, mode='run'):
+    """mode 'run': the jobs of a check; mode 'search': the small space of the failing-input search — every graph with at most
+    3 nodes x every seeding, all nine entry points, nothing sampled below n = 4."""
     rng = ctx.rng
     quick = ctx.quick
+    search_mode = (mode == 'search')
     jobs = []
 
-    # ---- 1. exhaustive small graphs x all seedings (Propagation, both weightings; Diffusion on the symmetric ones)
+    # ---- 1. small graphs x seedings: Propagation (both weightings) and DiffusionClassifier on each
     small = []
     for n in (2, 3):
         for es in graphs.all_digraphs(n):
-            small.append((n, es, True))
-    und4 = [(4, es, False) for es in graphs.all_undirected(4)]
-    if quick or small_only:
+            small.append((n, es))
+    und4 = [(4, es) for es in graphs.all_undirected(4)]
+    if quick:
         und4 = rng.sample(und4, 12)
     small += und4
-    for n, es, directed in small:
-        w = _weights(rng, es, directed)
+    for n, es in small:
+        sym = _is_symmetric(es)
+        w = _weights(rng, es, not sym)
         g = gdesc(_csr(n, es, w))
         seedings = list(_seedings(n, (1, 3) if n < 4 else (0, 2)))
         if n == 3:
             seedings += [s for s in _seedings(3, (0, 1, 2)) if len(set(s)) == 3 and -1 not in s][:2]
             seedings += [[-1, 0, 1], [2, -1, 0], [1, 0, -1]]
-        if (quick or small_only) and len(seedings) > 10:
+        if quick and not (search_mode and n <= 3) and len(seedings) > 10:
             seedings = rng.sample(seedings, 10)
-        for v in seedings:
+        for si, v in enumerate(seedings):
+            kw = _seed_kw_square(rng, v)
             for weighted in (True, False):
-                jobs.append(_prop_job(rng, g, _seed_kw_square(rng, v), weighted=weighted,
+                jobs.append(_prop_job(rng, g, kw, weighted=weighted,
                                       order=rng.choice([None, None, 'increasing', 'decreasing', 'random']),
                                       n_iter=rng.choice([-1, -1, -1, 1, 2])))
-            if not directed:
-                jobs.append({'kind': 'diff', 'graph': g, 'n_iter': rng.choice([1, 2, 3, 10]),
-                             'centering': rng.random() < 0.5, 'symmetric': True, **_seed_kw_square(rng, v)})
-    if small_only:
-        return jobs
+            jobs.append({'kind': 'diff', 'graph': g, 'n_iter': rng.choice([1, 2, 3, 10]),
+                         'centering': rng.random() < 0.6, 'scale': rng.choice([5, 5, 1, 2.5]), 'symmetric': sym, **kw})
+            if es and (search_mode and si < 2 or (not quick and si < 1)):
+                jobs.append({'kind': 'knn', 'graph': g, 'k': rng.choice([1, 2]), 'normalize': rng.random() < 0.5, **kw})
+                jobs.append({'kind': 'link', 'graph': g, 'k': rng.choice([1, 2]),
+                             'threshold': _link_threshold(rng, gmat(g)), 'index': None})
+                if si == 0:
+                    jobs.append({'kind': 'rank', 'graph': g, 'damping': 0.85, 'solver': 'piteration', 'n_iter': 10, **kw})
 
-    # ---- 2. structured random graphs
-    n_struct = int((36 if quick else 400) * scale)
-    for name, n, es, _ in graphs.suite(rng, n_struct, 3, 12):
-        kind = name.rstrip('0123456789')
-        directed = kind in graphs.DIRECTED_KINDS
-        w = _weights(rng, es, directed)
-        a = _csr(n, es, w)
-        if rng.random() < 0.3:
-            a = graphs.unsorted_copy(a, rng)
-        g = gdesc(a)
-        ctx.count('graph:' + kind)
-        v = _rand_seeding(rng, n)
-        kw = _seed_kw_square(rng, v)
-        for weighted in (True, False):
-            jobs.append(_prop_job(rng, g, kw, weighted=weighted,
-                                  order=rng.choice([None, 'increasing', 'decreasing', 'random']),
-                                  n_iter=rng.choice([-1, -1, 1, 3, 5])))
-        jobs.append({'kind': 'diff', 'graph': g, 'n_iter': rng.choice([1, 2, 5, 10]), 'centering': rng.random() < 0.5,
-                     'symmetric': not directed, **kw})
-        if len(es) > 0:
-            jobs.append({'kind': 'knn', 'graph': g, 'k': rng.choice([1, 2, 3, 5]), 'normalize': rng.random() < 0.6, **kw})
-            jobs.append({'kind': 'link', 'graph': g, 'k': rng.choice([1, 2, 3, 10]),
-                         'threshold': rng.choice([0, 0, 0.25, 0.5, 0.75]),
-                         'index': None if rng.random() < 0.5 else sorted(rng.sample(range(n), rng.randint(1, n)))})
-        if rng.random() < (0.25 if quick else 0.5) and len(es) > 0:
-            jobs.append({'kind': 'rank', 'graph': g, 'damping': rng.choice([0.85, 0.5]),
-                         'solver': rng.choice(['piteration', 'piteration', 'diteration', 'lanczos', 'bicgstab']),
-                         'n_iter': rng.choice([5, 10]), **kw})
-
-    # ---- 3. bipartite graphs (rectangular and square-forced through labels_row / labels_col)
-    n_bip = int((14 if quick else 150) * scale)
-    for _ in range(n_bip):
-        nr, nc = rng.randint(2, 6), rng.randint(2, 6)
-        es = graphs.random_edges(rng, nr, rng.choice([0.3, 0.5, 0.7]), m=nc)
-        w = [rng.choice(WEIGHTS) for _ in es]
-        g = gdesc(_csr(nr, es, w, m=nc))
-        v = _rand_seeding(rng, nr + nc, p_seed=0.45)
-        vr, vc = v[:nr], v[nr:]
-        if not any(x >= 0 for x in vr):
-            vr[0] = v[nr] if v[nr] >= 0 else 1
-        kw = _seed_kw_bip(rng, nr, nc, vr, vc)
-        if nr == nc and 'labels' in kw:
-            kw = {'labels_row': kw['labels']}
-        ctx.count('graph:bipartite')
-        jobs.append(_prop_job(rng, g, kw, weighted=rng.random() < 0.6,
-                              order=rng.choice([None, 'increasing', 'decreasing', 'random']), n_iter=rng.choice([-1, 2, 4])))
-        nclass = _n_classes({'graph': g, **kw})
-        jobs.append({'kind': 'diff', 'graph': g, 'n_iter': rng.choice([1, 3, 10]), 'centering': rng.random() < 0.5,
-                     'symmetric': True, **kw})
-        if nclass >= 2 and es:
-            jobs.append({'kind': 'knn', 'graph': g, 'k': rng.choice([1, 2, 3]), 'normalize': rng.random() < 0.6, **kw})
+    if not search_mode:
+        # ---- 2. structured random graphs
+        n_struct = int((36 if quick else 400) * scale)
+        for name, n, es, _ in graphs.suite(rng, n_struct, 3, 12):
+            kind = name.rstrip('0123456789')
+            directed = kind in graphs.DIRECTED_KINDS
+            w = _weights(rng, es, directed)
+            a = _csr(n, es, w)
             if rng.random() < 0.3:
-                jobs.append({'kind': 'rank', 'graph': g, 'damping': 0.85, 'solver': 'piteration', 'n_iter': 10, **kw})
-        if es:
-            jobs.append({'kind': 'link', 'graph': g, 'k': rng.choice([1, 2, 10]), 'threshold': rng.choice([0, 0.3, 0.6]),
-                         'index': None})
+                a = graphs.unsorted_copy(a, rng)
+            g = gdesc(a)
+            ctx.count('graph:' + kind)
+            v = _rand_seeding(rng, n)
+            kw = _seed_kw_square(rng, v)
+            for weighted in (True, False):
+                jobs.append(_prop_job(rng, g, kw, weighted=weighted,
+                                      order=rng.choice([None, 'increasing', 'decreasing', 'random']),
+                                      n_iter=rng.choice([-1, -1, 1, 3, 5])))
+            jobs.append({'kind': 'diff', 'graph': g, 'n_iter': rng.choice([1, 2, 5, 10]), 'centering': rng.random() < 0.6,
+                         'scale': rng.choice([5, 5, 1, 2.5]), 'symmetric': not directed, **kw})
+            if rng.random() < 0.3:
+                # a square matrix taken as a biadjacency matrix: the labels are those of the rows
+                jobs.append({'kind': 'diff', 'graph': g, 'n_iter': rng.choice([1, 3, 10]), 'centering': rng.random() < 0.6,
+                             'scale': 5, 'symmetric': True, 'force_bipartite': True, **kw})
+            if len(es) > 0:
+                jobs.append({'kind': 'knn', 'graph': g, 'k': rng.choice([1, 2, 3, 5]), 'normalize': rng.random() < 0.6, **kw})
+                jobs.append({'kind': 'link', 'graph': g, 'k': rng.choice([1, 2, 3, 10]),
+                             'threshold': _link_threshold(rng, a),
+                             'index': None if rng.random() < 0.5 else sorted(rng.sample(range(n), rng.randint(1, n)))})
+            if rng.random() < 0.8 and len(es) > 0:
+                jobs.append({'kind': 'rank', 'graph': g, 'damping': rng.choice([0.85, 0.5]),
+                             'solver': rng.choice(['piteration', 'piteration', 'diteration', 'lanczos', 'bicgstab']),
+                             'n_iter': rng.choice([5, 10]), **kw})
+
+        # ---- 2b. directed graphs for DiffusionClassifier (heat flows against the edges, distances along them)
+        for _ in range(int((30 if quick else 300) * scale)):
+            n = rng.randint(3, 10)
+            es = graphs.structured(rng, rng.choice(graphs.DIRECTED_KINDS), n)
+            g = gdesc(_csr(n, es, [rng.choice(WEIGHTS) for _ in es]))
+            kw = _seed_kw_square(rng, _rand_seeding(rng, n))
+            ctx.count('graph:directed-diffusion')
+            jobs.append({'kind': 'diff', 'graph': g, 'n_iter': rng.choice([1, 2, 5, 10]), 'centering': rng.random() < 0.6,
+                         'scale': rng.choice([5, 1]), 'symmetric': _is_symmetric(es), **kw})
+
+        # ---- 2c. stored zeros and duplicate entries; weights that float32 cannot tell apart
+        for _ in range(int((6 if quick else 60) * scale)):
+            n = rng.randint(3, 8)
+            es = graphs.structured(rng, rng.choice(['random_undirected', 'path', 'star', 'cycle']), n)
+            g = _with_zeros_and_duplicates(rng, _csr(n, es, graphs.sym_weights(rng, es, [1, 2, 4, 0.5])))
+            kw = _seed_kw_square(rng, _rand_seeding(rng, n))
+            ctx.count('graph:stored-zeros-duplicates')
+            jobs.append(_prop_job(rng, g, kw, weighted=rng.random() < 0.7, order=None, n_iter=rng.choice([-1, 3])))
+            jobs.append({'kind': 'diff', 'graph': g, 'n_iter': rng.choice([2, 10]), 'centering': rng.random() < 0.5,
+                         'scale': 5, 'symmetric': False, **kw})
+        big = float(2 ** 24)
+        jobs.append(_prop_job(rng, gdesc(_csr(3, [(0, 1), (0, 2), (1, 0), (2, 0)], [big, big + 1, big, big + 1])),
+                              {'labels': mk_seed('dict', [-1, 0, 1])}, weighted=True, order=None, n_iter=-1))
+
+        # ---- 3. bipartite graphs (rectangular and square-forced through labels_row / labels_col)
+        n_bip = int((14 if quick else 150) * scale)
+        for _ in range(n_bip):
+            nr, nc = rng.randint(2, 6), rng.randint(2, 6)
+            es = graphs.random_edges(rng, nr, rng.choice([0.3, 0.5, 0.7]), m=nc)
+            w = [rng.choice(WEIGHTS) for _ in es]
+            a = _csr(nr, es, w, m=nc)
+            g = gdesc(a)
+            v = _rand_seeding(rng, nr + nc, p_seed=0.45)
+            vr, vc = v[:nr], v[nr:]
+            if not any(x >= 0 for x in vr):
+                vr[0] = v[nr] if v[nr] >= 0 else 1
+            kw = _seed_kw_bip(rng, nr, nc, vr, vc)
+            if nr == nc and 'labels' in kw:
+                kw = {'labels_row': kw['labels']}
+            ctx.count('graph:bipartite')
+            jobs.append(_prop_job(rng, g, kw, weighted=rng.random() < 0.6,
+                                  order=rng.choice([None, 'increasing', 'decreasing', 'random']), n_iter=rng.choice([-1, 2, 4])))
+            nclass = _n_classes({'graph': g, **kw})
+            jobs.append({'kind': 'diff', 'graph': g, 'n_iter': rng.choice([1, 3, 10]), 'centering': rng.random() < 0.6,
+                         'scale': rng.choice([5, 1]), 'symmetric': True, **kw})
+            if nclass >= 2 and es:
+                jobs.append({'kind': 'knn', 'graph': g, 'k': rng.choice([1, 2, 3]), 'normalize': rng.random() < 0.6, **kw})
+                if rng.random() < 0.5:
+                    jobs.append({'kind': 'rank', 'graph': g, 'damping': 0.85,
+                                 'solver': rng.choice(['piteration', 'diteration', 'lanczos', 'bicgstab']), 'n_iter': 10, **kw})
+            if es:
+                jobs.append({'kind': 'link', 'graph': g, 'k': rng.choice([1, 2, 10]), 'threshold': _link_threshold(rng, a),
+                             'index': None})
 
     # ---- 4. the kernel alone: labels >= n, nnz < n, unequal weights, partial index
     n_vote = int((60 if quick else 600) * scale)
@@ -932,12 +1124,13 @@ def gen_jobs(ctx, scale=1.0, small_only=False):
         rng.shuffle(index)
         jobs.append({'kind': 'vote', 'graph': g, 'labels': labels, 'index': index})
 
-    # ---- 5. directed cycles without seeds (every node starts with its own label): the sweep may cycle
-    for n in (3, 4, 5):
-        g = gdesc(_csr(n, graphs.structured(rng, 'dicycle', n)))
-        jobs.append(_prop_job(rng, g, {}, weighted=True, order=None, n_iter=-1))
-    jobs.append(_prop_job(rng, gdesc(_csr(3, [(0, 1), (1, 2), (2, 0)])), {'labels': mk_seed('arr', [0, 1, 2])}))
-    jobs.append(_prop_job(rng, gdesc(_csr(3, [(0, 1), (1, 0), (1, 2), (2, 1)])), {'labels': mk_seed('arr', [2, 0, 1])}))
+    if not search_mode:
+        # ---- 5. directed cycles without seeds (every node starts with its own label): the sweep may cycle
+        for n in (3, 4, 5):
+            g = gdesc(_csr(n, graphs.structured(rng, 'dicycle', n)))
+            jobs.append(_prop_job(rng, g, {}, weighted=True, order=None, n_iter=-1))
+        jobs.append(_prop_job(rng, gdesc(_csr(3, [(0, 1), (1, 2), (2, 0)])), {'labels': mk_seed('arr', [0, 1, 2])}))
+        jobs.append(_prop_job(rng, gdesc(_csr(3, [(0, 1), (1, 0), (1, 2), (2, 1)])), {'labels': mk_seed('arr', [2, 0, 1])}))
 
     # ---- 6. nearest-neighbour cores on integer embeddings (exact ties)
     n_core = int((40 if quick else 400) * scale)
@@ -952,7 +1145,7 @@ def gen_jobs(ctx, scale=1.0, small_only=False):
                      'sparse': rng.random() < 0.5})
         nrow = n if rng.random() < 0.6 else rng.randint(1, n - 1)
         jobs.append({'kind': 'link_core', 'emb': emb, 'mask': [int(rng.random() < 0.8) for _ in range(nrow)],
-                     'k': rng.choice([1, 2, 3, 10]), 'threshold': rng.choice([0, 1, 2, -1, 0.5]),
+                     'k': rng.choice([1, 2, 3, 10]), 'threshold': _link_threshold(rng, None, core_emb=emb),
                      'sparse': rng.random() < 0.5})
 
     # ---- 7. metrics
@@ -1022,11 +1215,14 @@ def run(ctx):
 
 
 def search(ctx, pending):
-    """Spec lines over the exhaustive small space (and the corpus) on the implementation."""
+    """Failing-input search: the specification on the implementation over the small space of gen_jobs(mode='search') —
+    every (di)graph with at most 3 nodes x every seeding for Propagation / DiffusionClassifier (undirected n = 4: all in the
+    thorough tier, 12 sampled in the quick tier), NNClassifier / NNLinker / PageRankClassifier on those graphs, the vote
+    kernel alone, the nearest-neighbour cores on integer embeddings and the metrics — plus the corpus."""
     from vlib.core import load_findings, match_finding
     sub = Sub(ctx)
     sub.overlay_root = ctx.overlay_root
-    jobs = corpus_jobs() + gen_jobs(sub, small_only=True)
+    jobs = corpus_jobs() + gen_jobs(sub, mode='search')
     run_and_evaluate(sub, jobs)
     # a failing input explains a broken tie only if it is about the same entry point and is not an already
     # recorded finding (those are reported by the main run itself)
@@ -1040,7 +1236,7 @@ def search(ctx, pending):
 def replay(ctx, payload):
     job = payload.get('case')
     if not isinstance(job, dict) or 'kind' not in job:
-        jobs = corpus_jobs() + gen_jobs(ctx, small_only=True)
+        jobs = corpus_jobs() + gen_jobs(ctx, mode='search')
     else:
         jobs = [job]
     run_and_evaluate(ctx, jobs)
